@@ -37,19 +37,20 @@ TECHNIQUE = 'runtime monitoring: reference-model oracle (table-generated documen
 XS = 'http://www.w3.org/2001/XMLSchema'
 TNS = 'urn:vk:id'
 TYPES = {
-    'integer': (['1', '2', '3'], ['01', '+1', '1', '2', '02', '3'], lambda s: int(s)),
-    'decimal': (['1.0', '2.5', '3'], ['1', '1.0', '01.00', '2.5', '2.50', '3'], lambda s: Decimal(s)),
-    'boolean': (['true', 'false', '1'], ['true', '1', 'false', '0'], lambda s: s in ('true', '1')),
+    # the types below collapse whitespace: a padded lexical form denotes the same value
+    'integer': (['1', '2', '3'], ['01', '+1', '1', '2', '02', '3', ' 1 ', '2  '], lambda s: int(s.strip())),
+    'decimal': (['1.0', '2.5', '3'], ['1', '1.0', '01.00', '2.5', '2.50', '3', ' 1.0', '2.5 '], lambda s: Decimal(s.strip())),
+    'boolean': (['true', 'false', '1'], ['true', '1', 'false', '0', ' true ', ' 0'], lambda s: s.strip() in ('true', '1')),
     'string': (['a', 'b', 'c'], ['a', 'b', 'c', 'A', ' a'], lambda s: s),
-    'date': (['2020-01-01', '2020-01-02', '2021-01-01'], ['2020-01-01', '2020-01-02', '2021-01-01'], lambda s: s),
-    'QName': (['p1:x', 'p1:y', 'p3:x'], ['p1:x', 'p2:x', 'p1:y', 'p3:x', 'p2:y'], None),
+    'date': (['2020-01-01', '2020-01-02', '2021-01-01'], ['2020-01-01', '2020-01-02', '2021-01-01', ' 2020-01-01 '], lambda s: s.strip()),
+    'QName': (['p1:x', 'p1:y', 'p3:x'], ['p1:x', 'p2:x', 'p1:y', 'p3:x', 'p2:y', ' p1:x ', 'p2:y  ', '  p3:x'], None),
 }
 QNS = {'p1': 'urn:q:1', 'p2': 'urn:q:1', 'p3': 'urn:q:3'}
 
 
 def value_of(typ, lexical):
     if typ == 'QName':
-        pf, ln = lexical.split(':')
+        pf, ln = lexical.strip().split(':')
         return (QNS[pf], ln)
     return TYPES[typ][2](lexical)
 
